@@ -847,6 +847,8 @@ pub enum PSt {
     GViews,
     Scc,
     Serde,
+    /// deserialise a document: declared node indices (may repeat), edges over indices (index >= n = undeclared key)
+    Deser(Vec<usize>, Vec<(usize, usize, usize)>),
 }
 
 #[derive(Clone, Debug, PartialEq, Eq, Hash, Serialize, Deserialize)]
@@ -875,6 +877,11 @@ fn pscript_strategy(prop: &'static str) -> impl Strategy<Value = PScript> {
             "C10" => (node(), any::<bool>(), any::<bool>(), any::<bool>(), 0u8..3).prop_map(|(r, p, tr, e, m)| PSt::Order(r, p, tr, e, m)).boxed(),
             "C11" => prop_oneof![3 => node().prop_map(PSt::GIns), 1 => Just(PSt::Scc)].boxed(),
             "C12" => prop_oneof![3 => node().prop_map(PSt::GIns), 1 => Just(PSt::Serde)].boxed(),
+            "C13" => (proptest::collection::vec(0..n, 0..=n + 1), proptest::collection::vec((0..n + 2, 0..n + 2, 0usize..4), 0..=5)).prop_map(|(d, e)| PSt::Deser(d, e)).boxed(),
+            "C07" => prop_oneof![
+                3 => (node(), 0u8..4, 0u8..3, -1i64..7, any::<bool>(), 1u8..3).prop_map(|(r, a, t, tg, tr, m)| PSt::Search(r, a, t, tg, tr, m)),
+                1 => (node(), any::<bool>(), any::<bool>(), any::<bool>(), 1u8..3).prop_map(|(r, p, tr, e, m)| PSt::Order(r, p, tr, e, m)),
+            ].boxed(),
             _ => prop_oneof![3 => node().prop_map(PSt::GIns), 1 => (0..n + 1).prop_map(PSt::GRem), 2 => Just(PSt::GViews)].boxed(),
         };
         let step = prop_oneof![3 => edge_ops, 2 => specific];
@@ -898,8 +905,14 @@ use std::collections::HashMap;
 use std::fmt::{Debug, Display};
 use std::hash::Hash;
 #[derive(Clone, Copy, Debug)]
-enum St { Con(usize, usize, usize), Try(usize, usize, usize), Dis(usize, usize), Iso(usize), Look(usize, usize), Lists, Search(usize, u8, u8, i64, bool, u8), Order(usize, bool, bool, bool, u8), GIns(usize), GRem(usize), GViews, Scc, Serde }
+enum St { Deser(&'static [usize], &'static [(usize, usize, usize)]), Con(usize, usize, usize), Try(usize, usize, usize), Dis(usize, usize), Iso(usize), Look(usize, usize), Lists, Search(usize, u8, u8, i64, bool, u8), Order(usize, bool, bool, bool, u8), GIns(usize), GRem(usize), GViews, Scc, Serde }
 fn reject(s: usize, t: usize) -> bool { (s + 2 * t) % 3 == 0 }
+/// a legal but awkward key type: Hash is much coarser than Eq (every second key collides) and Display is not injective
+#[derive(Clone, Copy, Debug, PartialEq, Eq, PartialOrd, Ord, serde::Serialize, serde::Deserialize)]
+#[serde(transparent)]
+pub struct WKey(pub u16);
+impl Hash for WKey { fn hash<H: std::hash::Hasher>(&self, h: &mut H) { (self.0 % 2).hash(h) } }
+impl Display for WKey { fn fmt(&self, f: &mut std::fmt::Formatter) -> std::fmt::Result { write!(f, "w{}", self.0 / 2) } }
 
 macro_rules! body {
     ($m:ident, $directed:tt) => {
@@ -952,6 +965,18 @@ macro_rules! body {
                             format!("views to_vec {:?} iter {:?} orphans {:?} {}", ks(g.to_vec()), it, ks(g.orphans()), body!(@views $directed, g, ks))
                         }
                         St::Scc => body!(@scc $directed, g, ix),
+                        St::Deser(decl, edges) => {
+                            let doc: (Vec<(K, N)>, Vec<(K, K, E)>) = (decl.iter().map(|&i| (mk(i), mn(i as i64))).collect(), edges.iter().map(|&(u, v, e)| (mk(u), mk(v), me(e))).collect());
+                            let text = serde_json::to_string(&doc).unwrap();
+                            match serde_json::from_str::<Graph<K, N, E>>(&text) {
+                                Err(_) => "deser Err".to_string(),
+                                Ok(h) => {
+                                    let mut members: Vec<(usize, Vec<(usize, usize)>)> = h.iter().map(|(k, nd)| (ix(k), { let mut l = body!(@outlist $directed, nd, tri); if !$directed { l.sort(); } l })).collect();
+                                    members.sort();
+                                    format!("deser Ok {:?}", members)
+                                }
+                            }
+                        }
                         St::Serde => {
                             let doc = serde_json::to_string(&g).unwrap();
                             let back: Graph<K, N, E> = serde_json::from_str(&doc).unwrap();
@@ -1019,7 +1044,9 @@ macro_rules! variants { ($m:ident, $name:expr, $si:expr, $n:expr, $prio:expr, $s
     let t2 = $m::run::<u64, String, u64>($n, $prio, $steps, &|i| u64::MAX - 7 * i as u64, &|p| format!("{:06}", p), &|e| u64::MAX - e as u64, &|e| (u64::MAX - *e) as usize);
     // zero-sized node values cannot order a pfs: skipped for N; tuple edge values
     let t3 = $m::run::<char, i64, (u8, Vec<u8>)>($n, $prio, $steps, &|i| (b'a' + i as u8) as char, &|p| p, &|e| (e as u8, vec![e as u8; e]), &|e| e.0 as usize);
-    for (tag, a, b) in [("String-keys,unit-edges", &t0e, &t1), ("u64::MAX-values,String-node-values", &t0, &t2), ("char-keys,tuple-edges", &t0, &t3)] {
+    // keys whose Hash collides (every second key) and whose Display is not injective
+    let t4 = $m::run::<WKey, i64, u32>($n, $prio, $steps, &|i| WKey(i as u16), &|p| p, &|e| e as u32, &|e| *e as usize);
+    for (tag, a, b) in [("String-keys,unit-edges", &t0e, &t1), ("u64::MAX-values,String-node-values", &t0, &t2), ("char-keys,tuple-edges", &t0, &t3), ("keys-with-colliding-Hash-and-Display", &t0, &t4)] {
         if a != b {
             let i = a.iter().zip(b.iter()).position(|(x, y)| x != y).unwrap_or(a.len().min(b.len()));
             println!("DIFF {} {} {} step {} :: baseline `{}` :: variant `{}`", $si, $name, tag, i, a.get(i).map(|s| s.as_str()).unwrap_or("<none>"), b.get(i).map(|s| s.as_str()).unwrap_or("<none>"));
@@ -1059,6 +1086,12 @@ fn parse(path: &str) -> Vec<(usize, Vec<i64>, Vec<St>)> {
             "GViews" => cur.as_mut().unwrap().2.push(St::GViews),
             "Scc" => cur.as_mut().unwrap().2.push(St::Scc),
             "Serde" => cur.as_mut().unwrap().2.push(St::Serde),
+            "Deser" => {
+                let (d, e) = f.get(1).copied().unwrap_or("|").split_once('|').unwrap_or(("", ""));
+                let decl: Vec<usize> = d.split(',').filter(|x| !x.is_empty()).map(|x| x.parse().unwrap()).collect();
+                let edges: Vec<(usize, usize, usize)> = e.split(',').filter(|x| !x.is_empty()).map(|x| { let p: Vec<usize> = x.split(':').map(|y| y.parse().unwrap()).collect(); (p[0], p[1], p[2]) }).collect();
+                cur.as_mut().unwrap().2.push(St::Deser(Box::leak(decl.into_boxed_slice()), Box::leak(edges.into_boxed_slice())));
+            }
             _ => {}
         }
     }
@@ -1095,6 +1128,7 @@ fn pst_line(s: &PSt) -> String {
         PSt::GViews => "GViews".into(),
         PSt::Scc => "Scc".into(),
         PSt::Serde => "Serde".into(),
+        PSt::Deser(d, e) => format!("Deser {}|{}", d.iter().map(|x| x.to_string()).collect::<Vec<_>>().join(","), e.iter().map(|x| format!("{}:{}:{}", x.0, x.1, x.2)).collect::<Vec<_>>().join(",")),
     }
 }
 
@@ -1118,7 +1152,7 @@ pub fn payload_independence(ctx: &mut Ctx, prop: &'static str) {
         ctx.inconclusive.push("cannot write the payload script file".into());
         return;
     }
-    let built = match build_and_run_args("payload", &[("payload", payload_program())], &wd, "serde = \"1\"\nserde_json = \"1\"\n", &[script_file.display().to_string()]) {
+    let built = match build_and_run_args("payload", &[("payload", payload_program())], &wd, "serde = { version = \"1\", features = [\"derive\"] }\nserde_json = \"1\"\n", &[script_file.display().to_string()]) {
         Ok(b) => b,
         Err(e) => {
             ctx.inconclusive.push(e);
@@ -1163,6 +1197,6 @@ pub fn payload_independence(ctx: &mut Ctx, prop: &'static str) {
     for sc in scripts.iter().take(nscripts) {
         ctx.stats.nontrivial(&("payload", sc));
     }
-    ctx.stats.sample_kind("payload-script", 1, || json!({"payload_script": scripts[0], "run_with": ["(u16,i32,u32) baseline", "(String,i64,())", "(u64 near MAX, String, u64 near MAX)", "(char,i64,(u8,Vec<u8>))"], "on": MODS}));
-    ctx.stats.extra.insert("payload_independence".into(), json!({"scripts": nscripts, "variants": 3, "flavours": 4, "identical_traces": same}));
+    ctx.stats.sample_kind("payload-script", 1, || json!({"payload_script": scripts[0], "run_with": ["(u16,i32,u32) baseline", "(String,i64,())", "(u64 near MAX, String, u64 near MAX)", "(char,i64,(u8,Vec<u8>))", "(WKey: Hash collides for every second key, Display not injective; i64; u32)"], "on": MODS}));
+    ctx.stats.extra.insert("payload_independence".into(), json!({"scripts": nscripts, "variants": 4, "flavours": 4, "identical_traces": same}));
 }
